@@ -3,4 +3,5 @@ CONSTANTS
 INIT Init
 NEXT Next
 INVARIANT IndexLaws
+INVARIANT UpLaws
 INVARIANT ExportPoint
